@@ -329,6 +329,9 @@ func (co *ClipperOffset) doGroupOffset(group *Group) {
 	}
 
 	for _, p := range group.inPaths {
+		if verifOn {
+			verifGate(co)
+		}
 		co.pathOut = Path64{}
 		co.endType = group.endType
 		cnt := len(p)
